@@ -32,7 +32,7 @@ TRUSTED_BASE = [
     "is an oracle value passed to the model for uuid_from_str and assumed to reject every string shorter than 32 characters",
     "gen/C20_Consts.v: _ALPHABET, _SHORT_GUID_LEN and the exception classes caught around the decoder are read from ak/short_uuid.py by harness/props/c20.py:gen_consts (ast, fail-closed)",
     "the translator harness/props/c20_translate.py (Python ast -> Gallina, ~1000 lines, NOT verified; self test "
-    "`python -m harness.props.c20_translate --selftest` compares 1470 calls of 13 translated functions with CPython) and "
+    "`python -m harness.lib.pytranslate --selftest` compares ~4000 calls of 19 translated functions with CPython) and "
     "coq/C20/PyLib.v, which gives each Python construct its meaning (int=Z, str=list of code points, floor // and %, negative "
     "indices and clamped slices, IndexError/KeyError/ValueError/TypeError of [] / dict[] / .index / .rjust, dict = association list "
     "where a later key wins, short-circuit and/or, try/except as a match on the res monad, while = Fixpoint on fuel with Err Hang). "
